@@ -1,11 +1,13 @@
 """Independent VHDX writer ([MS-VHDX]) — fixed/dynamic images and differencing chains."""
 from __future__ import annotations
 
+import functools
+import json
 import random
 import struct
 import uuid
 
-from sparse import Image
+from sparse import Image, pat_bytes
 
 MB = 1 << 20
 G = lambda s: uuid.UUID(s).bytes_le  # noqa: E731
@@ -62,6 +64,55 @@ def gen_layer(rng: random.Random, size, bs, ss, has_parent, tier, seed):
                 pos += k
                 cur ^= 1
             bitmaps[str(b)] = runs
+    l = _gen_layer_base(rng, size, bs, ss, has_parent, seed, blocks, phys, bitmaps)
+    return gen_layout_knobs(l)
+
+
+def gen_layout_knobs(l, fixedlike=None, placed=None):
+    """File-level knobs that leave the guest-visible content alone (drawn from a generator seeded by the layer itself):
+      * `leave_alloc`   the LeaveBlocksAllocated bit of the file parameters;
+      * `fixedlike`     the shape of a fixed disk: first and last payload block fully present at the two ends of one extent of
+                        pb_count blocks, the interior blocks permuted inside that extent and / or in a state without data;
+      * `placement`     where log, metadata region, BAT and the payload area (in two parts) lie behind the 1 MiB header section:
+                        any order, optional gaps (payload first / tables last, BAT behind the payload, payload on both sides of a table);
+      * `other_header`  the non-current header copy: garbage signature, all zero, or a valid older copy."""
+    rng = random.Random("vhdx-layout/" + json.dumps(l, sort_keys=True))
+    nb = len(l["blocks"])
+    l["leave_alloc"] = rng.random() < 0.4
+    if fixedlike is None:
+        fixedlike = (not l["has_parent"]) and 1 <= nb <= 64 and rng.random() < 0.3
+    if fixedlike:
+        kind = rng.choice(["identity", "permuted", "permuted", "states", "both"])
+        inner = list(range(1, nb - 1))
+        blocks = [6] * nb
+        if kind in ("states", "both") and inner:
+            for b in rng.sample(inner, rng.randrange(1, len(inner) + 1)):
+                blocks[b] = rng.choice([0, 1, 2, 3])
+        slots = list(inner)
+        if kind in ("permuted", "both"):
+            rng.shuffle(slots)
+            if len(slots) >= 2 and slots == inner:
+                slots.reverse()
+        l["blocks"] = blocks
+        l["phys"] = {str(b): ([0] + slots + [nb - 1])[b] for b in range(nb) if blocks[b] == 6}
+        l["bitmaps"] = {}
+        l["fixedlike"] = kind
+        l["leave_alloc"] = rng.random() < 0.8
+    nphys = max(l["phys"].values(), default=-1) + 2
+    if placed is None:
+        placed = rng.random() < 0.5
+    if placed and nphys * l["bs"] < (1 << 40):
+        order = ["log", "meta", "bat", "payA", "payB"]
+        rng.shuffle(order)
+        # a fixed-like extent stays in one piece
+        split = rng.choice([0, nphys]) if fixedlike else rng.choice([0, nphys, rng.randrange(nphys + 1), rng.randrange(nphys + 1)])
+        l["placement"] = {"order": order, "split": split, "gaps": [rng.choice([0, 0, 0, 1, 2, 5]) for _ in order],
+                          "log_len": rng.choice([1, 1, 2, 4]) << 20}
+    l["other_header"] = rng.choice(["garbage", "zero", "valid", "valid"])
+    return l
+
+
+def _gen_layer_base(rng, size, bs, ss, has_parent, seed, blocks, phys, bitmaps):
     return {"size": size, "bs": bs, "ss": ss, "has_parent": has_parent, "blocks": blocks, "phys": phys, "bitmaps": bitmaps,
             "seed": seed, "meta_order": rng.sample(range(6), 6), "region_swap": rng.random() < 0.5,
             "active_header": rng.choice([1, 2]), "seqs": sorted(rng.sample(range(1, 1000), 2)),
@@ -106,9 +157,181 @@ def _locator_blob(entries: dict[str, str]) -> bytes:
     return bytes(hdr) + bytes(table) + bytes(strings)
 
 
+# ---- CRC-32C (Castagnoli), as [MS-VHDX] uses for the header, the region table and log entries
+_CRC32C_TABLE = []
+for _i in range(256):
+    _c = _i
+    for _ in range(8):
+        _c = (_c >> 1) ^ 0x82F63B78 if _c & 1 else _c >> 1
+    _CRC32C_TABLE.append(_c)
+
+
+@functools.lru_cache(maxsize=64)
+def crc32c(data: bytes) -> int:
+    crc = 0xFFFFFFFF
+    t = _CRC32C_TABLE
+    for b in data:
+        crc = t[(crc ^ b) & 0xFF] ^ (crc >> 8)
+    return crc ^ 0xFFFFFFFF
+
+
+def layout(l) -> dict:
+    """Where everything lies in the file of layer `l`, from the recipe alone: offsets of log / metadata region / BAT, the
+    file offset of every payload slot (`slot(k)`), of the sector bitmaps (`bm_base`) and the end of the laid-out areas."""
+    bs, ss = l["bs"], l["ss"]
+    ratio = (2 ** 23 * ss) // bs
+    nb = len(l["blocks"])
+    nsb = (nb + ratio - 1) // ratio
+    nent = nsb * (ratio + 1) if l["has_parent"] else nb + (nb - 1) // ratio
+    nent_written = nent + l["extra_bat"]
+    bat_len = ((nent_written * 8 + MB - 1) // MB) * MB
+    nphys = max(l["phys"].values(), default=-1) + 2          # one spare slot for a stale allocation behind the last block
+    nbm = nsb if l["has_parent"] else 0
+    pl = l.get("placement")
+    if not pl:
+        lo = {"log_off": MB, "log_len": MB, "meta_off": 2 * MB, "bat_off": 3 * MB, "split": 0}
+        lo["payA"] = lo["payB"] = data0 = 3 * MB + bat_len
+        lo["end"] = data0 + nphys * bs + nbm * MB
+    else:
+        split = min(pl["split"], nphys)
+        length = {"log": pl["log_len"], "meta": MB, "bat": bat_len, "payA": split * bs, "payB": (nphys - split) * bs + nbm * MB}
+        pos = MB
+        at = {}
+        for name, gap in zip(pl["order"], pl["gaps"]):
+            pos += gap * MB
+            at[name] = pos
+            pos += length[name]
+        lo = {"log_off": at["log"], "log_len": pl["log_len"], "meta_off": at["meta"], "bat_off": at["bat"], "split": split,
+              "payA": at["payA"], "payB": at["payB"], "end": pos}
+    split = lo["split"]
+    lo.update({"bat_len": bat_len, "nent": nent, "nent_written": nent_written, "nphys": nphys, "ratio": ratio, "nsb": nsb,
+               "slot": (lambda k: lo["payA"] + k * bs if k < split else lo["payB"] + (k - split) * bs),
+               "bm_base": lo["payB"] + (nphys - split) * bs})
+    return lo
+
+
+# ---- the log ([MS-VHDX] 2.3): a ring of 4 KiB sectors holding entries = header + descriptors + data sectors
+LOG_SECTOR = 4096
+
+
+def log_guid(log) -> bytes:
+    return uuid.UUID(int=log["guid"]).bytes_le
+
+
+def gen_log(rng: random.Random, l):
+    """An *active* log for layer `l` (the file was not closed cleanly): a sequence of entries with data and zero descriptors.
+    Descriptor targets are symbolic: ["data"|"zero", area, a, b, n, seed] with area "bat" (sector a of the BAT; rewritten with the
+    bytes already in place: a flushed update), "meta" (sector a of the slack of the metadata region), "block" (4 KiB sector b of
+    present payload block a: new guest-visible bytes) or "spare" (sector b of the spare payload slot behind the last block)."""
+    lo = layout(l)
+    nsect = lo["log_len"] // LOG_SECTOR
+    present = [b for b, st in enumerate(l["blocks"]) if st in (6, 7)]
+    spb4k = l["bs"] // LOG_SECTOR
+    bat_sectors = max(1, (lo["nent_written"] * 8 + LOG_SECTOR - 1) // LOG_SECTOR)
+
+    def desc():
+        kind = rng.choice(["data", "data", "zero"])
+        area = rng.choice(["bat", "meta", "spare"] + (["block"] * 3 if present else []))
+        n = rng.choice([1, 1, 2, 16]) if kind == "zero" else 1
+        if area == "bat":
+            return ["data", "bat", rng.randrange(min(bat_sectors, 64)), 0, 1, 0]
+        if area == "meta":
+            return [kind, "meta", 0, 32 + rng.randrange(200), n, rng.randrange(256)]
+        if area == "spare":
+            return [kind, "spare", 0, rng.choice([0, 1, spb4k - 16, rng.randrange(spb4k - 16)]), n, rng.randrange(256)]
+        b = rng.choice(present)
+        return [kind, "block", b, rng.choice([0, 1, spb4k - 16, rng.randrange(spb4k - 16)]), n, (l["seed"] + 17 * b + 1 + rng.randrange(254)) & 0xFF]
+
+    entries = []
+    used = 0
+    for k in range(rng.choice([1, 2, 2, 3, 4])):
+        nd = rng.choice([1, 2, 3, 5, 8])
+        if k == 1 and rng.random() < 0.3:
+            nd = rng.choice([126, 127, 130])       # 126 descriptors fill the first sector exactly; one more needs a second descriptor sector
+        ds = [desc() for _ in range(nd)]
+        if nd > 100:
+            ds = [d if d[0] == "zero" or i % 9 == 0 else ["zero", "spare", 0, i, 1, 0] for i, d in enumerate(ds)]
+        n_sect = (64 + 32 * nd + LOG_SECTOR - 1) // LOG_SECTOR + sum(1 for d in ds if d[0] == "data")
+        if used + n_sect > nsect - 8:
+            break
+        used += n_sect
+        entries.append(ds)
+    stale = rng.random() < 0.5
+    return {"guid": rng.getrandbits(128) | 1, "start": rng.choice([0, 1, nsect - 1, nsect - 2, rng.randrange(nsect)]),
+            "first_seq": rng.choice([1, 7, (1 << 32) - 1, (1 << 33) + 5, rng.randrange(1, 1 << 48)]), "entries": entries,
+            "stale": stale and used + 2 <= nsect - 8, "stale_guid": rng.getrandbits(128) | 2}
+
+
+def _log_entry(guid: bytes, seq: int, tail: int, file_end: int, descs) -> bytes:
+    """descs: [("data", file_offset, 4096 bytes) | ("zero", file_offset, length)]"""
+    dsect = (64 + 32 * len(descs) + LOG_SECTOR - 1) // LOG_SECTOR
+    table = bytearray()
+    data = bytearray()
+    for kind, off, arg in descs:
+        if kind == "zero":
+            table += b"zero" + struct.pack("<IQQQ", 0, arg, off, seq)
+        else:
+            assert len(arg) == LOG_SECTOR
+            table += b"desc" + arg[4092:4096] + arg[0:8] + struct.pack("<QQ", off, seq)
+            data += b"data" + struct.pack("<I", seq >> 32) + arg[8:4092] + struct.pack("<I", seq & 0xFFFFFFFF)
+    length = dsect * LOG_SECTOR + len(data)
+    hdr = bytearray(64)
+    hdr[0:4] = b"loge"
+    struct.pack_into("<IIQII", hdr, 8, length, tail, seq, len(descs), 0)
+    hdr[32:48] = guid
+    struct.pack_into("<QQ", hdr, 48, file_end, file_end)
+    ent = bytearray(bytes(hdr) + bytes(table)).ljust(dsect * LOG_SECTOR, b"\0") + data
+    struct.pack_into("<I", ent, 4, crc32c(bytes(ent)))
+    return bytes(ent)
+
+
+def write_log(im: Image, lo, log, file_end, loc=None):
+    """lay the entries of `log` into the ring of image `im`; returns what replaying the active sequence writes: [(file offset, bytes)]"""
+    nsect = lo["log_len"] // LOG_SECTOR
+    writes = []
+
+    def resolve(d, blk):
+        kind, area, a, b, n, seed = d
+        if area == "bat":
+            off = lo["bat_off"] + a * LOG_SECTOR
+            return ("data", off, im.read_at(off, LOG_SECTOR).ljust(LOG_SECTOR, b"\0"))
+        if area == "meta":
+            off = lo["meta_off"] + b * LOG_SECTOR
+        elif area == "spare":
+            off = lo["slot"](lo["nphys"] - 1) + b * LOG_SECTOR
+        else:
+            off = blk[a] + b * LOG_SECTOR
+        return ("zero", off, n * LOG_SECTOR) if kind == "zero" else ("data", off, pat_bytes(seed, off, LOG_SECTOR))
+
+    def put(sector, blob):
+        for i in range(0, len(blob), LOG_SECTOR):
+            im.put_hex(lo["log_off"] + ((sector + i // LOG_SECTOR) % nsect) * LOG_SECTOR, blob[i:i + LOG_SECTOR])
+
+    pos = log["start"] % nsect
+    tail = pos * LOG_SECTOR
+    if log.get("stale"):
+        # an entry of an earlier, closed sequence right in front of the active one (another GUID): not to be replayed
+        old = _log_entry(uuid.UUID(int=log["stale_guid"]).bytes_le, max(1, log["first_seq"] - 1), ((pos - 1) % nsect) * LOG_SECTOR, file_end,
+                         [("zero", lo["meta_off"] + 40 * LOG_SECTOR, LOG_SECTOR)])
+        put((pos - 1) % nsect, old)
+    for i, ds in enumerate(log["entries"]):
+        rs = [resolve(d, loc or {}) for d in ds]
+        ent = _log_entry(log_guid(log), log["first_seq"] + i, tail, file_end, rs)
+        put(pos, ent)
+        pos = (pos + len(ent) // LOG_SECTOR) % nsect
+        writes += [(off, arg if kind == "data" else bytes(arg)) for kind, off, arg in rs]
+    return writes
+
+
+def header_offsets(l):
+    """(file offset of the current header, file offset of the other copy)"""
+    return ((64 << 10), (128 << 10)) if l["active_header"] == 1 else ((128 << 10), (64 << 10))
+
+
 def build_layer(l, parent_name=None, name="x.vhdx", absdir=None):
     size, bs, ss = l["size"], l["bs"], l["ss"]
-    ratio = (2 ** 23 * ss) // bs
+    lo = layout(l)
+    ratio = lo["ratio"]
     spb = bs // ss
     nb = len(l["blocks"])
     im = Image()
@@ -116,25 +339,27 @@ def build_layer(l, parent_name=None, name="x.vhdx", absdir=None):
     fid[0:8] = b"vhdxfile"
     fid[8:8 + 28] = "verif writer".encode("utf-16-le").ljust(28, b"\0")[:28]
     im.put_hex(0, bytes(fid))
+    log = l.get("log")
     s1, s2 = l["seqs"] if l["active_header"] == 2 else l["seqs"][::-1]
-    for off, seq, sig in ((64 << 10, s1, b"head"), (128 << 10, s2, b"head")):
-        h = bytearray(4176)
-        active = (off == (64 << 10)) == (l["active_header"] == 1)
-        h[0:4] = sig if active else rng_garbage_sig(l["seed"])
-        struct.pack_into("<IQ", h, 4, 0, seq)
-        struct.pack_into("<HHIQ", h, 64, 0, 1, MB, MB)
+    other = l.get("other_header", "garbage")
+    for off, seq in ((64 << 10, s1), (128 << 10, s2)):
+        h = bytearray(4096)
+        active = off == header_offsets(l)[0]
+        if not active and other == "zero":
+            continue
+        h[0:4] = b"head" if active or other == "valid" else rng_garbage_sig(l["seed"])
+        struct.pack_into("<Q", h, 8, seq)
+        if log and active:
+            h[48:64] = log_guid(log)          # the older copy (written before the log was opened) carries no log GUID
+        struct.pack_into("<HHIQ", h, 64, 0, 1, lo["log_len"], lo["log_off"])
+        struct.pack_into("<I", h, 4, crc32c(bytes(h)))
         im.put_hex(off, bytes(h[:80]))
     # regions
-    meta_off = 2 * MB
-    bat_off = 3 * MB
-    nsb = (nb + ratio - 1) // ratio
-    if l["has_parent"]:
-        nent = nsb * (ratio + 1)
-    else:
-        nent = nb + (nb - 1) // ratio
-    nent_written = nent + l["extra_bat"]
-    bat_len = ((nent_written * 8 + MB - 1) // MB) * MB
-    data0 = bat_off + bat_len
+    meta_off = lo["meta_off"]
+    bat_off = lo["bat_off"]
+    nsb = lo["nsb"]
+    nent_written = lo["nent_written"]
+    bat_len = lo["bat_len"]
     regs = [(BAT_GUID, bat_off, bat_len, 1), (META_GUID, meta_off, MB, 1)]
     if l["region_swap"]:
         regs.reverse()
@@ -143,10 +368,11 @@ def build_layer(l, parent_name=None, name="x.vhdx", absdir=None):
     struct.pack_into("<II", rt, 8, len(regs), 0)
     for g, o, ln, req in regs:
         rt += g + struct.pack("<QII", o, ln, req)
+    struct.pack_into("<I", rt, 4, crc32c(bytes(rt) + bytes((64 << 10) - len(rt))))
     im.put_hex(192 << 10, bytes(rt))
     im.put_hex(256 << 10, bytes(rt))
     # metadata
-    items = [(FILE_PARAMS, struct.pack("<II", bs, (2 if l["has_parent"] else 0)), 4 | 0),
+    items = [(FILE_PARAMS, struct.pack("<II", bs, (2 if l["has_parent"] else 0) | (1 if l.get("leave_alloc") else 0)), 4 | 0),
              (DISK_SIZE, struct.pack("<Q", size), 4 | 2),
              (DISK_ID, uuid.UUID(int=(l["seed"] * 0x0123456789ABCDEF0123456789ABCDEF) % (1 << 128)).bytes_le, 4 | 2),
              (LSS, struct.pack("<I", ss), 4 | 2),
@@ -179,14 +405,13 @@ def build_layer(l, parent_name=None, name="x.vhdx", absdir=None):
     # BAT + data
     bat = [0] * nent_written
     loc = {}
-    end = data0
-    nphys = max(l["phys"].values(), default=-1) + 2          # one spare slot for a stale allocation behind the last block
-    bm_base = data0 + nphys * bs
+    end = MB
+    bm_base = lo["bm_base"]
     used_slots = set(l["phys"].values())
     for b, st in enumerate(l["blocks"]):
         idx = b + b // ratio
         if st in (6, 7):
-            off = data0 + l["phys"][str(b)] * bs
+            off = lo["slot"](l["phys"][str(b)])
             loc[b] = off
             bat[idx] = st | ((off // MB) << 20)
             sd = (l["seed"] + 17 * b) & 0xFF
@@ -206,7 +431,7 @@ def build_layer(l, parent_name=None, name="x.vhdx", absdir=None):
                 slot = l["phys"][str(b - 1)] + 1
                 if slot not in used_slots:
                     used_slots.add(slot)
-                    soff = data0 + slot * bs
+                    soff = lo["slot"](slot)
                     im.put_pat(soff, bs, (l["seed"] + 101 + b) & 0xFF)          # stale bytes of the old allocation
                     bat[idx] = st | ((soff // MB) << 20)
                     end = max(end, soff + bs)
@@ -231,7 +456,6 @@ def build_layer(l, parent_name=None, name="x.vhdx", absdir=None):
                         pos += k
             if any_:
                 # only store the touched part
-                lo = (c * 0)  # whole-chunk offset 0
                 first = next(i for i, x in enumerate(bits) if x) if any(bits) else 0
                 last = max(i for i, x in enumerate(bits) if x) + 1 if any(bits) else 0
                 if last > first:
@@ -241,7 +465,18 @@ def build_layer(l, parent_name=None, name="x.vhdx", absdir=None):
         for c in range((nb - 1) // ratio):
             bat[(c + 1) * ratio + c] = 6 | (0x12345 << 20)      # sector-bitmap slots are not payload entries
     im.put_hex(bat_off, b"".join(struct.pack("<Q", e) for e in bat))
-    im.finish(max(end, bat_off + bat_len))
+    end = max(end, bat_off + bat_len, meta_off + MB, lo["log_off"] + lo["log_len"])
+    if log:
+        end = max(end, lo["end"])         # every target of a log descriptor lies inside the file
+    im.finish(end)
+    im.replayed = im
+    if log:
+        writes = write_log(im, lo, log, end, loc)
+        im.finish(end)
+        replayed = im.copy()
+        for off, data in writes:
+            replayed.patch(off, data)
+        im.replayed = replayed          # the file as a reader has to see it: the active log sequence applied
     return im, loc
 
 
@@ -264,6 +499,7 @@ class Truth:
         if k < 0:
             return bytes(n)
         l, im, loc = self.layers[k]
+        im = getattr(im, "replayed", im)          # guest-visible content = the file with its active log sequence applied
         bs, ss = l["bs"], l["ss"]
         out = []
         end = off + n
